@@ -339,7 +339,12 @@ func (ev *dtEval) evalBool(x ast.Expr, fr *dtFrame, env *dtEnv) (bool, error) {
 				return a != b, nil
 			}
 			// nil tests and other comparisons: boolean atom "X==Y" (normalised to ==)
-			name := ev.atomName(ev.canon(v.X, fr)+"=="+ev.canon(v.Y, fr), v.Pos(), env == nil)
+			// equality is symmetric: the operands are named in a fixed order
+			lx, ly := ev.canon(v.X, fr), ev.canon(v.Y, fr)
+			if ly < lx && ly != "nil" {
+				lx, ly = ly, lx
+			}
+			name := ev.atomName(lx+"=="+ly, v.Pos(), env == nil)
 			if (v.Op == token.EQL || v.Op == token.NEQ) && (tx != nil) {
 				if env == nil {
 					ev.boolAtoms[name] = true
@@ -501,7 +506,11 @@ func (ev *dtEval) evalGuards(gs []dtGuard, fr0 *dtFrame, env *dtEnv) (bool, erro
 		}
 		if gd.tag != nil && !isIntLike(fr.info.TypeOf(gd.tag)) {
 			// switch over a non-integer (an error value, a string): the case test is the atom tag==case
-			name := ev.atomName(ev.canon(gd.tag, fr)+"=="+ev.canon(gd.cond, fr), gd.cond.Pos(), env == nil)
+			lx, ly := ev.canon(gd.tag, fr), ev.canon(gd.cond, fr)
+			if ly < lx && ly != "nil" {
+				lx, ly = ly, lx
+			}
+			name := ev.atomName(lx+"=="+ly, gd.cond.Pos(), env == nil)
 			if env == nil {
 				ev.boolAtoms[name] = true
 				continue
